@@ -1,6 +1,7 @@
 package server
 
 import (
+	"context"
 	"net/http"
 	"net/url"
 
@@ -118,8 +119,12 @@ func HarnessStop503() {
 	if vChoose("post", 2) == 1 {
 		method = "POST"
 	}
-	path := vString("path", 4)
+	path := vString("path", vParam("pathcap", 7))
 	req := &http.Request{Method: method, URL: &url.URL{Path: path}, Header: http.Header{}, Host: "h"}
+	if vChoose("strip_ctx", 2) == 1 {
+		// as Router.ServeHTTP attaches it for a service deployed under /app with prefix stripping
+		req = req.WithContext(context.WithValue(req.Context(), contextKeyRoutingContext, &routingContext{MatchedPrefix: "/app"}))
+	}
 	root := vRootChain(http.HandlerFunc(cur.ServeHTTP))
 	w := vNewRecorder()
 	nForwardBefore := len(vForwards)
